@@ -392,8 +392,11 @@ def initialize_pit(net):
     if get_net_option(net, "transient") and get_net_option(net,"simulation_time_step") != 0 and net.converged:
         create_old_pit(net, [TINIT], [TOUTINIT])
 
+    # all node entries first: branch entries copy start values (e.g. the temperature of their to-node)
+    # from the node pit, which feeders like external grids also write to
     for comp in net['component_list']:
         comp.create_pit_node_entries(net, pit["node"])
+    for comp in net['component_list']:
         comp.create_pit_branch_entries(net, pit["branch"])
         comp.create_component_array(net, pit["components"])
 
